@@ -240,13 +240,20 @@ def run_case(c):
     xs, fs, how = reference(A, b, xl, xu)
     objfun = lambda x: A @ x - b
     np.random.seed(c['np_seed'])
-    with warnings.catch_warnings():
-        warnings.simplefilter('ignore')
-        soln = dfols.solve(objfun, x0.copy(), bounds=None if xl is None else (xl.copy(), xu.copy()), npt=c['npt'],
-                           scaling_within_bounds=c['scaling'], do_logging=False)
     tol = RTOL * (1.0 + fs)
     viol = []
     data = case_data(c)
+    try:
+        with warnings.catch_warnings():
+            warnings.simplefilter('ignore')
+            soln = dfols.solve(objfun, x0.copy(), bounds=None if xl is None else (xl.copy(), xu.copy()), npt=c['npt'],
+                               scaling_within_bounds=c['scaling'], do_logging=False)
+    except Exception as ex:
+        sig = 'C05:solve_raised:%s' % type(ex).__name__
+        viol.append(dict(signature=sig, what='solve raised %s: %s (n=%d m=%d npt=%d kind=%s scaling=%s)'
+                         % (type(ex).__name__, str(ex)[:200], n, m, c['npt'], c['kind'], c['scaling']),
+                         data=dict(data, signature=sig)))
+        return viol, dict(flag='raised', n=n, m=m, nf=0, fstar=fs, ref=how, nactive=0, nontrivial=False, gap=float('nan'))
     info = dict(flag=int(soln.flag), n=n, m=m, nf=int(soln.nf), fstar=fs, ref=how)
     if soln.flag == soln.EXIT_INPUT_ERROR or soln.x is None:
         viol.append(dict(signature='C05:not_success:%d' % soln.flag,
@@ -305,7 +312,7 @@ def run_task(task):
         nt += 1 if info.get('nontrivial') else 0
         violations.extend(viol)
         m, n = c['A'].shape
-        _bump(stats, 'flag=%d' % info['flag'])
+        _bump(stats, 'flag=%s' % info['flag'])
         _bump(stats, 'n=%d' % n)
         _bump(stats, 'shape=%s' % ('square' if m == n else 'over'))
         _bump(stats, 'kind=%s' % c['kind'])
